@@ -47,6 +47,12 @@ func runC06(c *Ctx, r *Report) {
 	r.only = nil
 	// what Encode hands to the writer is this call's bytes only: the staging buffer is a fresh local
 	encodePrivateBuffer(c, r, "C06-R6-private-buffer")
+	c02ArrayElementsKept(c, r)
+	// "unset fields stay invalid": the timestamp of a record is set from the reference only for compressed
+	// headers (C12's guard rules)
+	r.only = map[string]bool{"C12-R3-guards": true, "C12-R2-who-rebases": true}
+	runC12(c, r)
+	r.only = nil
 	encoderByteOrder(c, r, "C06-R2-byte-order")
 	ev := newEvaluator(c)
 	hosted := c.hostedMessages()
